@@ -8,7 +8,7 @@ use crate::eng;
 use crate::gen::{self, e, int, list, st, Body, Entry, RuleSpec, Val};
 use crate::report::{Report, Rng, Stats, Tier, Violation};
 
-fn permutations(n: usize) -> Vec<Vec<usize>> {
+pub fn permutations(n: usize) -> Vec<Vec<usize>> {
     if n == 1 {
         return vec![vec![0]];
     }
@@ -41,6 +41,8 @@ fn combos<T: Clone>(items: &[T], k: usize) -> Vec<Vec<T>> {
 struct Position {
     kind: String,
     arity: usize,
+    /// documents added to the generated product (shapes the generic product does not reach)
+    extra: Vec<crate::mdoc::MObj>,
     build: Box<dyn Fn(&[usize]) -> RuleSpec + Send + Sync>,
 }
 
@@ -48,7 +50,8 @@ fn check(pos: &Position, level: u8) -> Stats {
     let mut st = Stats::default();
     let perms = permutations(pos.arity);
     let base = (pos.build)(&perms[0]);
-    let docs = gen::docs_for(&base, level, 300);
+    let mut docs = gen::docs_for(&base, level, 300);
+    docs.extend(pos.extra.iter().cloned());
     let mut reference: Option<(Vec<bool>, Vec<bool>, String)> = None;
     let mut t = false;
     let mut f = false;
@@ -123,6 +126,7 @@ fn list_positions(members: &[Val], k: usize, keys: &[&'static str], out: &mut Ve
             out.push(Position {
                 kind: format!("list-under-{}", key2.split('(').next().unwrap_or("k")),
                 arity: k,
+                extra: vec![],
                 build: Box::new(move |p| {
                     RuleSpec::one(Body::Map(vec![e(
                         key2,
@@ -165,6 +169,7 @@ pub fn run(tier: Tier) -> i32 {
             positions.push(Position {
                 kind: "sequence-rows".into(),
                 arity: k,
+                extra: vec![],
                 build: Box::new(move |p| RuleSpec::one(Body::Seq(p.iter().map(|i| vec![c1[*i].clone()]).collect()))),
             });
             if distinct_keys(&c) {
@@ -172,6 +177,7 @@ pub fn run(tier: Tier) -> i32 {
                 positions.push(Position {
                     kind: "mapping-entries".into(),
                     arity: k,
+                    extra: vec![],
                     build: Box::new(move |p| RuleSpec::one(Body::Map(p.iter().map(|i| c2[*i].clone()).collect()))),
                 });
             }
@@ -180,6 +186,7 @@ pub fn run(tier: Tier) -> i32 {
                 positions.push(Position {
                     kind: format!("condition-{}", op),
                     arity: k,
+                    extra: vec![],
                     build: Box::new(move |p| {
                         let names = ["A", "B", "C", "D"];
                         RuleSpec {
@@ -190,6 +197,59 @@ pub fn run(tier: Tier) -> i32 {
                         }
                     }),
                 });
+            }
+        }
+    }
+    // several nested blocks over the same container field joined by and/or (the optimiser merges
+    // them into one block that is evaluated per array element): operand order must not matter,
+    // in particular on arrays of objects where different elements satisfy different blocks
+    {
+        use crate::mdoc::{arr, obj, s as ms, MObj, MVal};
+        let blocks: Vec<Entry> = vec![
+            e("n", gen::map(vec![e("x", st("a"))])),
+            e("n", gen::map(vec![e("y", st("b"))])),
+            e("n", gen::map(vec![e("z", st("c"))])),
+            e("n", gen::map(vec![e("x", st("*"))])),
+            e("f", st("a*")),
+        ];
+        let o = |v: MVal| match v {
+            MVal::Obj(o) => o,
+            _ => MObj::new(),
+        };
+        let xa = || obj(vec![("x", ms("a"))]);
+        let yb = || obj(vec![("y", ms("b"))]);
+        let zc = || obj(vec![("z", ms("c"))]);
+        let extra: Vec<MObj> = vec![
+            o(obj(vec![("n", arr(vec![xa(), yb()]))])),
+            o(obj(vec![("n", arr(vec![xa(), yb()])), ("f", ms("ab"))])),
+            o(obj(vec![("n", arr(vec![yb(), xa()])), ("f", ms("ab"))])),
+            o(obj(vec![("n", arr(vec![xa(), yb(), zc()])), ("f", ms("ab"))])),
+            o(obj(vec![("n", arr(vec![obj(vec![("x", ms("a")), ("y", ms("b"))])])), ("f", ms("ab"))])),
+            o(obj(vec![("n", obj(vec![("x", ms("a")), ("y", ms("b"))])), ("f", ms("ab"))])),
+            o(obj(vec![("n", arr(vec![xa()])), ("f", ms("ab"))])),
+            o(obj(vec![("n", arr(vec![yb(), zc()])), ("f", ms("b"))])),
+            o(obj(vec![("n", arr(vec![])), ("f", ms("ab"))])),
+            o(obj(vec![("n", arr(vec![xa(), ms("a"), MVal::Int(1)])), ("f", ms("ab"))])),
+        ];
+        for k in 2..=4usize {
+            for c in combos(&blocks, k) {
+                for op in ["and", "or"] {
+                    let c3 = c.clone();
+                    positions.push(Position {
+                        kind: format!("condition-{}-over-nested-blocks", op),
+                        arity: k,
+                        extra: extra.clone(),
+                        build: Box::new(move |p| {
+                            let names = ["A", "B", "C", "D"];
+                            RuleSpec {
+                                idents: (0..c3.len())
+                                    .map(|i| (names[i].to_string(), Body::Map(vec![c3[i].clone()])))
+                                    .collect(),
+                                cond: p.iter().map(|i| names[*i]).collect::<Vec<_>>().join(&format!(" {} ", op)),
+                            }
+                        }),
+                    });
+                }
             }
         }
     }
@@ -217,6 +277,7 @@ pub fn run(tier: Tier) -> i32 {
                 positions.push(Position {
                     kind: "row-entries-in-a-sequence".into(),
                     arity: k,
+                    extra: vec![],
                     build: Box::new(move |p| {
                         RuleSpec::one(Body::Seq(vec![p.iter().map(|i| c1[*i].clone()).collect(), o1.clone()]))
                     }),
@@ -226,6 +287,7 @@ pub fn run(tier: Tier) -> i32 {
                 positions.push(Position {
                     kind: "row-entries-in-a-sequence".into(),
                     arity: k,
+                    extra: vec![],
                     build: Box::new(move |p| {
                         RuleSpec::one(Body::Seq(vec![o2.clone(), p.iter().map(|i| c2[*i].clone()).collect(), vec![e("f", st("zz"))]]))
                     }),
@@ -244,6 +306,7 @@ pub fn run(tier: Tier) -> i32 {
                     positions.push(Position {
                         kind: "list-with-case-twins".into(),
                         arity: 4,
+                        extra: vec![],
                         build: Box::new(move |p| {
                             RuleSpec::one(Body::Map(vec![e(key, list(p.iter().map(|i| c1[*i].clone()).collect()))]))
                         }),
@@ -254,6 +317,7 @@ pub fn run(tier: Tier) -> i32 {
                 positions.push(Position {
                     kind: "sequence-rows-with-case-twins".into(),
                     arity: 2,
+                    extra: vec![],
                     build: Box::new(move |p| {
                         let rows = [
                             vec![e("f", list(vec![st(&a1), st(&a2)]))],
